@@ -49,6 +49,11 @@ def gen_cases(tier, rng):
     cases.extend(repotests.gen_cases(tier))
     for i in range(2 if tier == "quick" else 12):
         cases.append({"cls": "rwa-in-context", "seed": int(rng.integers(1 << 30)), "cost": 3})
+    for i in range(10 if tier == "quick" else 80):
+        nmodes = 1 + i % 2
+        cases.append({"cls": "builder-in-context", "seed": int(rng.integers(1 << 30)), "nmodes": nmodes, "E": r3(rng.uniform(9000, 18000)),
+                      "omega": [r3(rng.uniform(80, 1500)) for _ in range(nmodes)], "hr": [r3(rng.uniform(0.01, 1.5)) for _ in range(nmodes)],
+                      "nmax": [int(rng.integers(2, 5)) for _ in range(nmodes)], "cost": 2})
     for cut in (50.0, 100.0, 10.0) + tuple(r3(rng.uniform(5.0, 220.0)) for _ in range(3 if tier == "quick" else 40)):
         cases.append({"cls": "cutoff-arguments", "cut_cm": cut, "seed": int(rng.integers(1 << 30)), "cost": 6})
     npg = 150 if tier == "quick" else 1500
@@ -203,6 +208,59 @@ def run_case(case, ctx):
     if cls == "repo-tests":
         from qrv import repotests
         repotests.run_module(case, ctx, ("current_units", "_in_eu_count", "_in_energy_units_context"), "library-call-keeps-units", "frame-leaks-units:")
+        return
+
+    if cls == "builder-in-context":
+        # Hamiltonian builders work from parameters that are stored in internal units: the operator they store does not depend on the
+        # units active when the builder is called (first call, cached call, recalculation), and what is read under a unit is its conversion
+        def mk():
+            with qr.energy_units("1/cm"):
+                mo = qr.Molecule([0.0, case["E"]])
+                for k in range(case["nmodes"]):
+                    md = qr.Mode(case["omega"][k])
+                    mo.add_Mode(md)
+                    md.set_nmax(0, case["nmax"][k])
+                    md.set_nmax(1, case["nmax"][k])
+                    md.set_HR(1, case["hr"][k])
+            return mo
+        with ctx.lib("Molecule.get_Hamiltonian (no context)"):
+            ref = numpy.array(mk().get_Hamiltonian().data, dtype=float)
+            a0 = qr.Aggregate([mk()])
+            a0.build()
+            refA = numpy.array(a0.get_Hamiltonian().data, dtype=float)
+        sc = float(numpy.max(numpy.abs(ref)))
+        det0 = {"nmodes": case["nmodes"], "nmax": case["nmax"], "dim": int(ref.shape[0])}
+        ctx.check("stored-value-context-independent", abs(float(numpy.linalg.eigvalsh(ref)[0])), 1e-9 * sc, dict(det0, what="lowest level of a molecule with modes is the zero of energy"))
+        for u in ["1/cm", "eV", "THz", "meV", "int", "Ha", "J"]:
+            for how in ("first", "recalculate", "aggregate"):
+                det = dict(det0, unit=u, call=how)
+                with ctx.lib("Hamiltonian builder under " + u):
+                    mo = mk()
+                    if how == "recalculate":
+                        mo.get_Hamiltonian()
+                    with qr.energy_units(u):
+                        if how == "aggregate":
+                            ag = qr.Aggregate([mo])
+                            ag.build()
+                            Hm = ag.get_Hamiltonian()
+                        elif how == "recalculate":
+                            Hm = mo.get_Hamiltonian(recalculate=True)
+                        else:
+                            Hm = mo.get_Hamiltonian()
+                        inside = numpy.array(Hm.data, dtype=float)
+                        if how != "aggregate":
+                            again = numpy.array(mo.get_Hamiltonian().data, dtype=float)
+                    stored = numpy.array(Hm.data, dtype=float)
+                want = refA if how == "aggregate" else ref
+                ctx.check("stored-value-context-independent", float(numpy.max(numpy.abs(stored - want))), RTOL * sc, dict(det, what="operator stored by a builder called inside a units context"))
+                conv = numpy.vectorize(lambda v: U.e_from_int(v, u))(want)
+                ctx.check("accessor-conversion", float(numpy.max(numpy.abs(inside - conv))), RTOL * float(numpy.max(numpy.abs(conv))), dict(det, what="operator read inside the context of the builder call"))
+                if how != "aggregate":
+                    ctx.check("accessor-conversion", float(numpy.max(numpy.abs(again - conv))), RTOL * float(numpy.max(numpy.abs(conv))), dict(det, what="second request inside the context"))
+                ctx.sub(("builder", u, how, case["nmodes"]), nontrivial=(u != "int"))
+        ctx.check("context-restores-units", 0.0 if m.get_current_units("energy") in ("1/fs", "int") else 1.0, 0.0, {"after": "builder calls"})
+        ctx.key(("builder-in-context", case["seed"]))
+        ctx.nontrivial(True)
         return
 
     if cls == "rwa-in-context":
